@@ -240,6 +240,9 @@ func runC05(w *World, r *Report) {
 	// ---- 0. the ledger asks the arithmetic, it does not re-implement it
 	r.rule("sufficiency-decided-by-drain", "checkHasSufficientfunds reports success only behind the success of in.Drain(*out, sink): the sufficiency verdict of the ledger is the verdict of Transfer, not of a parallel comparison", 1)
 	sufficiencyByDrain(w, r, "sufficiency-decided-by-drain")
+	// a transfer is counted with the same amount on the issuer's and on the receiver's side (also when they are one wallet)
+	r.rule("flows-counted-on-both-sides", "pourFunds supplies the outflow behind issuer == address and the inflow behind receiver == address with the transaction's own amount, and one execution can do both", 4)
+	pourFundsRoles(w, r, "flows-counted-on-both-sides")
 	// ---- 1. failure changes neither side
 	r.rule("atomic-on-failure", "at every error return of Supply/Transfer no *Melange pointee differs from its entry value: each store is undone by copyFrom(clone taken at entry) on every feasible path", 6)
 	for _, spec := range [][2]string{{"Melange", "Supply"}, {"", "Transfer"}} {
@@ -1170,6 +1173,9 @@ func capturedValue(fv *ssa.FreeVar) ssa.Value {
 	return nil
 }
 
+// shapeChain: the call sites through which the helper that holds the value under examination was reached.
+var shapeChain []ssa.CallInstruction
+
 // keyShape prints how v is computed from the leaf for which isLeaf holds ("$"): conversions, concatenations, calls.
 func keyShape(v ssa.Value, isLeaf func(ssa.Value) bool, d int) string {
 	if d > 12 || v == nil {
@@ -1179,6 +1185,19 @@ func keyShape(v ssa.Value, isLeaf func(ssa.Value) bool, d int) string {
 		return "$"
 	}
 	switch x := v.(type) {
+	case *ssa.Parameter:
+		// inside a helper reached through shapeChain: the argument passed for the parameter
+		for i := len(shapeChain) - 1; i >= 0; i-- {
+			cs := shapeChain[i]
+			if cal := cs.Common().StaticCallee(); cal != nil && cal == x.Parent() {
+				for k, p := range cal.Params {
+					if p == x && k < len(cs.Common().Args) {
+						return keyShape(cs.Common().Args[k], isLeaf, d+1)
+					}
+				}
+			}
+		}
+		return "?" + x.Name()
 	case *ssa.ChangeType:
 		return keyShape(x.X, isLeaf, d+1)
 	case *ssa.Convert:
@@ -1296,29 +1315,29 @@ func checkpointKeyDiscipline(w *World, r *Report, rule string) {
 	}
 	// writer: the key of every entry written
 	var wShapes []string
-	for _, fn := range WithAnon(save.fn) {
-		for _, c := range callsTo(fn, "("+badgerPkg+".Txn).SetEntry", "(*"+badgerPkg+".Txn).SetEntry", "(*"+badgerPkg+".Txn).Set") {
-			_, a := callArgs(c)
-			if len(a) == 0 {
-				continue
-			}
-			key := a[0]
-			if ne, ok := strip(a[0]).(*ssa.Call); ok && strings.HasSuffix(calleeName(ne), ".NewEntry") {
-				key = ne.Call.Args[0]
-			}
-			wShapes = append(wShapes, keyShape(key, paramLeaf(save.fn.Params[1]), 0))
+	for _, d := range deepCalls(save.fn, byName("(*"+badgerPkg+".Txn).SetEntry", "(*"+badgerPkg+".Txn).Set"), deepDepth) {
+		_, a := callArgs(d.c)
+		if len(a) == 0 {
+			continue
 		}
+		key := a[0]
+		if ne, ok := strip(a[0]).(*ssa.Call); ok && strings.HasSuffix(calleeName(ne), ".NewEntry") {
+			key = ne.Call.Args[0]
+		}
+		shapeChain = d.chain
+		wShapes = append(wShapes, keyShape(key, paramLeaf(save.fn.Params[1]), 0))
+		shapeChain = nil
 	}
 	var rShapes []string
-	for _, fn := range WithAnon(read.fn) {
-		for _, c := range callsTo(fn, "(*"+badgerPkg+".Txn).Get") {
-			_, a := callArgs(c)
-			rShapes = append(rShapes, keyShape(a[0], paramLeaf(read.fn.Params[1]), 0))
-		}
+	for _, d := range deepCalls(read.fn, byName("(*"+badgerPkg+".Txn).Get"), deepDepth) {
+		_, a := callArgs(d.c)
+		shapeChain = d.chain
+		rShapes = append(rShapes, keyShape(a[0], paramLeaf(read.fn.Params[1]), 0))
+		shapeChain = nil
 	}
 	okWR := len(wShapes) > 0 && len(rShapes) > 0
 	for _, s := range append(append([]string{}, wShapes...), rShapes...) {
-		if s != wShapes[0] || strings.Contains(s, "?") {
+		if len(wShapes) == 0 || s != wShapes[0] || strings.Contains(s, "?") {
 			okWR = false
 		}
 	}
@@ -1394,13 +1413,19 @@ func checkpointKeyDiscipline(w *World, r *Report, rule string) {
 	}
 	// length of a vertex key
 	var vlen int64 = -1
-	for _, f := range WithAnon(sv.fn) {
-		for _, c := range callsTo(f, badgerPkg+".NewEntry") {
-			if sl, ok := strip(c.Common().Args[0]).(*ssa.Slice); ok {
-				if pt, ok := sl.X.Type().Underlying().(*types.Pointer); ok {
-					if at, ok := pt.Elem().Underlying().(*types.Array); ok {
-						vlen = at.Len()
-					}
+	for _, d := range deepCalls(sv.fn, byName(badgerPkg+".NewEntry"), deepDepth) {
+		kv := d.argValue(strip(d.c.Common().Args[0]))
+		for i := 0; i < 4; i++ { // a helper may take the key as a string: string(hash[:])
+			if cv, ok := kv.(*ssa.Convert); ok {
+				kv = d.argValue(strip(cv.X))
+				continue
+			}
+			break
+		}
+		if sl, ok := strip(kv).(*ssa.Slice); ok {
+			if pt, ok := sl.X.Type().Underlying().(*types.Pointer); ok {
+				if at, ok := pt.Elem().Underlying().(*types.Array); ok {
+					vlen = at.Len()
 				}
 			}
 		}
